@@ -16,6 +16,8 @@ CATALOGUE = [
     'txt:ok\n',
     'txt:O',
     'txt:The signature is OK I think\n',
+    'txt:xx Verification status: OK xx\n',      # the newer tool's verdict phrase inside a longer line
+    'txt:Verification status: OK?\n',
     'stdout-OK',             # OK only on stdout
     'badbytes',              # undecodable stderr
     'out-absent',            # output file removed
